@@ -659,12 +659,6 @@ func (fc *FnCtx) allocRef(hint string) string {
 	}
 	fc.localRefs[r] = true
 	for name, g := range fc.e.specs.Ghosts {
-		if g.InitZero {
-			key := "ghost:" + name + "."
-			arr := fc.heapGet(fc.cur, key, fieldSort(sBV(64)))
-			fc.heapSet(fc.cur, key, fieldSort(sBV(64)), sx("store", arr, r, bvLit(0, 64)))
-			fc.noteWrite(key)
-		}
 		if g.InitFalse {
 			key := "ghost:" + name + "."
 			arr := fc.heapGet(fc.cur, key, fieldSort(sBool))
@@ -1007,6 +1001,15 @@ func (fc *FnCtx) typeAssert(x *ssa.TypeAssert) {
 func (fc *FnCtx) alloc(x *ssa.Alloc) {
 	el := x.Type().(*types.Pointer).Elem()
 	r := fc.allocRef("new_" + x.Name())
+	// integer ghosts declared initzero start at 0 for a newly allocated object of their argument type
+	for name, g := range fc.e.specs.Ghosts {
+		if g.InitZero && strings.TrimPrefix(g.Arg, "*") == fc.e.shortType(el) {
+			key := "ghost:" + name + "."
+			arr := fc.heapGet(fc.cur, key, fieldSort(sBV(64)))
+			fc.heapSet(fc.cur, key, fieldSort(sBV(64)), sx("store", arr, r, bvLit(0, 64)))
+			fc.noteWrite(key)
+		}
+	}
 	if arr, ok := el.Underlying().(*types.Array); ok {
 		// backing store of an array: zeroed
 		et := arr.Elem()
